@@ -83,8 +83,25 @@ def work(job):
         fmt = job["fmt"]
         text = job["text"]
         fd, path = tempfile.mkstemp(suffix="." + fmt, dir=tmpdir())
-        with os.fdopen(fd, "w") as f:
-            f.write(text)
+        if job.get("decoy"):
+            # the path held another file of the same length before (digits rotated), it was read once, and the new
+            # content keeps the old modification time: what is read must be the content, not what the path held
+            decoy = text.translate(str.maketrans("123456789", "234567891"))
+            with os.fdopen(fd, "w") as f:
+                f.write(decoy)
+            st = os.stat(path)
+            try:
+                from rnapolis.parser import read_3d_structure
+                with open(path) as f, contextlib.redirect_stdout(io.StringIO()), contextlib.redirect_stderr(io.StringIO()):
+                    read_3d_structure(f, None)
+            except Exception:  # noqa: BLE001
+                pass
+            with open(path, "w") as f:
+                f.write(text)
+            os.utime(path, ns=(st.st_atime_ns, st.st_mtime_ns))
+        else:
+            with os.fdopen(fd, "w") as f:
+                f.write(text)
     res = {"fmt": fmt}
     try:
         if fmt == "cif":
@@ -477,6 +494,11 @@ def gen_tables(ctx, res):
         size = "small" if rng.random() < 0.8 else "large"
         recs, meta = g4v1.table(rng, size=size)
         out.append(("g4:" + size, recs, meta))
+    # whole superposed copies: about half of the atoms are removed by the clash rule (survivor counts chosen across the
+    # sizes at which hash tables of the survivors' indices are rebuilt)
+    for k in ([18, 66, 70] if ctx.quick else [17, 18, 19, 65, 66, 70, 76, 130, 260, 300]):
+        recs, meta = g4v1.superposed(rng, k)
+        out.append(("superposed", recs, meta))
     return out
 
 
@@ -548,7 +570,7 @@ def run(ctx):
         res.count("models:%d" % meta["nmodels"])
         if meta["pdb_ok"]:
             text = g4v1.to_pdb(recs, ter=rng.random() < 0.7, header=rng.random() < 0.5)
-            jobs.append(dict(kind="table", fmt="pdb", text=text))
+            jobs.append(dict(kind="table", fmt="pdb", text=text, decoy=rng.random() < 0.1))
             items.append(dict(tag=tag, fmt="pdb", toks=tokens_of_table(recs, "pdb"), records=recs, meta=meta, text=text,
                               inp=dict(family=tag, format="pdb", records=recs)))
         attrs, vtag = cif_variant(rng, recs)
@@ -556,7 +578,7 @@ def run(ctx):
             attrs, vtag = meta["cif_attrs"], "no-auth-comp-item"
         res.count("cif-layout:" + vtag)
         text, attrs, rows = g4v1.to_cif(recs, attrs)
-        jobs.append(dict(kind="table", fmt="cif", text=text))
+        jobs.append(dict(kind="table", fmt="cif", text=text, decoy=rng.random() < 0.1))
         items.append(dict(tag=tag, fmt="cif", toks=tokens_of_table(recs, "cif", attrs), records=recs, meta=meta, text=text, rows=rows,
                           attrs=attrs, inp=dict(family=tag, format="cif", records=recs, attrs=attrs)))
     t0 = time.time()
